@@ -27,6 +27,10 @@ from . import runner  # noqa: F401  (imports the repository once, before any for
 HERE = os.path.dirname(os.path.dirname(os.path.abspath(__file__)))
 NWORKERS = int(os.environ.get("VERIF_WORKERS", "16"))
 KNOWN_FILE = os.path.join(HERE, "KNOWN_FINDINGS.txt")
+# development runs against scratch mutants must not overwrite the committed evidence / replay directories
+_ALT = "/dev/shm/tle_mutrun" if os.environ.get("VERIF_NOEVIDENCE") else None
+EVID_DIR = os.path.join(_ALT or HERE, "evidence")
+REPLAY_DIR = os.path.join(_ALT or HERE, "replay")
 
 
 def seed_from_env():
@@ -71,7 +75,7 @@ def _jsonable(x):
 
 
 def _write_replay(prop, case, res):
-    d = os.path.join(HERE, "replay", prop, str(case["id"]).replace("/", "_"))
+    d = os.path.join(REPLAY_DIR, prop, str(case["id"]).replace("/", "_"))
     shutil.rmtree(d, ignore_errors=True)
     os.makedirs(d, exist_ok=True)
     with open(os.path.join(d, "case.json"), "w") as f:
@@ -98,7 +102,7 @@ def _worker(prop, w, n, cases, evalfn, outpath, budget_s):
             except Exception:
                 res = {"v": "inconclusive", "msg": "harness exception: " + traceback.format_exc()[-1500:], "cls": ["harness-error"], "harness_error": True}
             rec = {"i": i, "id": case["id"], "v": res.get("v", "inconclusive"), "cls": _jsonable(res.get("cls", [])),
-                   "nontrivial": bool(res.get("nontrivial", res.get("v") == "held")), "msg": (res.get("msg") or "")[:2000],
+                   "nontrivial": bool(res.get("nontrivial", res.get("v") == "held")), "msg": (res.get("msg") or "")[-2000:] if res.get("harness_error") else (res.get("msg") or "")[:2000],
                    "finding": res.get("finding"), "mon": res.get("mon") or {}, "tags": _jsonable(res.get("tags") or []),
                    "harness_error": bool(res.get("harness_error")), "units": int(res.get("units", 1)),
                    "classes": _jsonable(res.get("classes")) if res.get("classes") is not None else None}
@@ -153,6 +157,10 @@ def run_cases(prop, cases, evalfn, budget_s=None, nworkers=None):
 def finish(prop, tier, seed, level, results, dead, t0, rule, min_nontrivial=2, assumptions=(), extra=None, exhaustive=False,
            expected_cases=None):
     """aggregate, print verdict lines, write evidence, return exit code"""
+    if os.environ.get("VERIF_DUMP"):
+        with open(os.environ["VERIF_DUMP"], "w") as f:
+            for r in results:
+                f.write(json.dumps(r) + "\n")
     known = load_known(prop)
     viol, inconc, held, knownhits, skipped = [], [], [], collections.Counter(), 0
     for r in results:
@@ -192,7 +200,7 @@ def finish(prop, tier, seed, level, results, dead, t0, rule, min_nontrivial=2, a
     for k, c in sorted(knownhits.items()):
         print(f"KNOWN-FINDING: property={prop} {k} :: {known[k]} (reproduced by {c} case(s) this run)")
     for r in viol[:20]:
-        rp = r.get("replay") or os.path.join(HERE, "replay", prop, "unsaved")
+        rp = r.get("replay") or os.path.join(REPLAY_DIR, prop, "unsaved")
         print(f"VIOLATION property={prop} replay={rp}")
         print(f"  case {r['id']}: {r.get('msg', '')[:600]}")
     harness_errors = [r for r in inconc if r.get("harness_error")]
@@ -225,16 +233,16 @@ def finish(prop, tier, seed, level, results, dead, t0, rule, min_nontrivial=2, a
     ev = {"property_id": prop, "tier": tier, "seed": int(seed), "level": level, "coverage": cov,
           "assumptions": list(assumptions), "wall_s": round(time.time() - t0, 2), "violations": len(viol),
           "verdict": {0: "held on everything explored", 1: "violated", 2: "inconclusive: " + why}[code]}
-    os.makedirs(os.path.join(HERE, "evidence"), exist_ok=True)
-    tmp = os.path.join(HERE, "evidence", f".{prop}.json.tmp")
+    os.makedirs(EVID_DIR, exist_ok=True)
+    tmp = os.path.join(EVID_DIR, f".{prop}.json.tmp")
     with open(tmp, "w") as f:
         json.dump(_jsonable(ev), f, indent=1)
-    os.replace(tmp, os.path.join(HERE, "evidence", f"{prop}.json"))
+    os.replace(tmp, os.path.join(EVID_DIR, f"{prop}.json"))
     print(f"[{prop}] tier={tier} seed={seed} evaluations={cov['evaluations']} distinct_nontrivial={distinct} held={len(held)} "
           f"known={sum(knownhits.values())} inconclusive={len(inconc)} violations={len(viol)} wall={ev['wall_s']}s -> "
           f"{ev['verdict']}")
     if inconc[:3]:
         for r in inconc[:3]:
-            print(f"  inconclusive case {r['id']}: {r.get('msg', '')[:300]}")
+            print(f"  inconclusive case {r['id']}: {r.get('msg', '')[:160]} ... {r.get('msg', '')[-500:]}")
     sys.stdout.flush()
     return code
